@@ -11,6 +11,7 @@ Lemma cl_drain_queue_parks_before_wake_with : fact_drain_queue_parks_before_wake
 Lemma cl_drain_queue_stores_waker_before_park : fact_drain_queue_stores_waker_before_park = true. Proof. reflexivity. Qed.
 Lemma cl_drain_queue_waiting_for_poll_self : fact_drain_queue_waiting_for_poll_self = true. Proof. reflexivity. Qed.
 Lemma cl_drain_queue_requeues_pending : fact_drain_queue_requeues_pending = true. Proof. reflexivity. Qed.
+Lemma cl_drain_queue_requeue_first : fact_drain_queue_requeue_first = true. Proof. reflexivity. Qed.
 Lemma cl_resched_after_idle_drain_queue : fact_resched_after_idle_drain_queue = true. Proof. reflexivity. Qed.
 Lemma cl_guard_drain_queue : fact_guard_drain_queue = true. Proof. reflexivity. Qed.
 (* FSFpoll: result taken first; the task waker is stored in the section that found the result missing; core lock nested inside *)
